@@ -118,5 +118,6 @@ pub fn property() -> Property {
             direct: None,
         }],
         assumptions: &["the same Difficulty (mods, passed_objects, lazer, overrides) is supplied again on the attribute path, as the documentation requires"],
+        enumerate: None,
     }
 }
